@@ -5,6 +5,8 @@ library under ASan/UBSan (harness/c15_setup.c)."""
 import sys, os, time, json, re, subprocess, itertools, resource
 import vlib
 import c15_geom
+import c15_scale
+import c15_life
 
 PID = 'C15'
 OV_EINVAL, OV_EIMPL, OV_EFAULT = -131, -130, -129
@@ -146,8 +148,10 @@ def desc_to_case(desc, T, pl=2, ns=4097):
         return 'G %s %s %d %d %d %d' % (f[1][1:], kv['ch'], T['rates'].index(int(kv['rate'])), T['quals'].index(kv['q']), pl, ns)
     if f[0] == 'managed':
         b = T['bitr']
-        ti = b.index(int(kv['max'])) * 49 + b.index(int(kv['nom'])) * 7 + b.index(int(kv['min']))
-        return 'M %s %s %d %d %d %d' % (f[1][1:], kv['ch'], T['mrates'].index(int(kv['rate'])), ti, pl, ns)
+        if f[1] in ('p0', 'p1') and all(int(kv[x]) in b for x in ('max', 'nom', 'min')) and int(kv['rate']) in T['mrates']:
+            ti = b.index(int(kv['max'])) * 49 + b.index(int(kv['nom'])) * 7 + b.index(int(kv['min']))
+            return 'M %s %s %d %d %d %d' % (f[1][1:], kv['ch'], T['mrates'].index(int(kv['rate'])), ti, pl, ns)
+        return 'S 1 %s %s %s %s %s %s %d %d' % (f[1][1:], kv['ch'], kv['rate'], kv['max'], kv['nom'], kv['min'], pl, ns)     # scaling family: explicit values, paths 0..5
     if f[0] == 'ctl':
         a, b, c = kv['split'].split('-')
         ops = [x for x in kv['ops'].split('.') if x != '']
@@ -161,6 +165,8 @@ def callpath(desc):
         return 'unattributed'
     if f[0] == 'ctl':
         return 'ctl:' + f[1] + ':' + f[2]
+    if any(x.startswith('req=') for x in f):
+        return 'ctl:scaling'        # scaling family with one request between setup_managed and setup_init
     if any(x.startswith('cpl=') for x in f) and not (('cpl=-1' in f) and ('lp=-' in f)):
         return 'ctl:geometry'       # geometry family with OV_ECTL_COUPLING_SET / OV_ECTL_LOWPASS_SET between setup_* and setup_init: reported with the ctl histories
     return f[0] + ':' + {'vbr:p0': 'init_vbr', 'vbr:p1': 'setup_vbr+setup_init', 'managed:p0': 'init', 'managed:p1': 'setup_managed+setup_init'}[f[0] + ':' + f[1]]
@@ -277,6 +283,33 @@ def run(tier):
                     cases.append('M %d %d %d -1 2 %d' % (path, ch, mi, ns))
                     plns.append((2, ns))
     phase('managed', cases, plns, 'c15m', reserve=600, always=len(cases) if tier == 'quick' else 0)
+    # ------------------------------------------------------------------ 3a. bitrate scaling family (pylib/c15_scale.py): per-channel bitrates x channel count, so that stage one
+    # (template lookup) succeeds for the channel counts only stage two (vorbis_encode_setup_init) refuses; one-step, two-step and with one request between the stages
+    sc_cases = c15_scale.cases(tier)
+    SC = c15_scale.Summary()
+
+    def absorb_scale(cases, results, plns):
+        absorb('scale', cases, results, [(int(c.split(' ')[4]), int(c.split(' ')[5])) for c in cases])
+        for meta, r in zip(plns, results):
+            if r is not None:
+                SC.absorb(meta, r)
+
+    sc_done = phase('scale', [l for l, m in sc_cases], [m for l, m in sc_cases], 'c15b', reserve=600, absorber=absorb_scale, always=len(sc_cases) if tier == 'quick' else 0,
+                    step=len(sc_cases) if tier == 'quick' else None)
+    # ------------------------------------------------------------------ 3a'. lifecycle family (pylib/c15_life.py, harness/c15_life.c): every legal call sequence up to the bound over
+    # two encoders created from ONE successfully set-up vorbis_info; each encoder lifetime compared with the same calls made by the only encoder on a fresh info
+    tt = time.time()
+    ru0 = resource.getrusage(resource.RUSAGE_CHILDREN)
+    life_exe = vlib.harness('asan', 'c15_life')
+    life_cfgs = json.loads(subprocess.run([life_exe, '--tables'], stdout=subprocess.PIPE, env=vlib.run_env(), timeout=60).stdout.decode().strip().splitlines()[-1])['cfgs']
+    LIFE, life_viol, life_exh = c15_life.run(vlib, life_exe, tier, crash_site, deadline=None if tier == 'quick' else chk.deadline - 600, time_fn=time.time)
+    walls['lifecycle'] = round(time.time() - tt, 1)
+    ru1 = resource.getrusage(resource.RUSAGE_CHILDREN)
+    cpus['lifecycle'] = round((ru1.ru_utime - ru0.ru_utime) + (ru1.ru_stime - ru0.ru_stime), 1)
+    chk.cov['evaluations'] += LIFE['executed']
+    if not life_exh:
+        exhaustive = False
+        notes.append('lifecycle family not completed: %s' % (LIFE.get('stopped') or LIFE.get('deadline')))
     # ------------------------------------------------------------------ 3b. signal alphabet: every template class x every signal
     # class = rate band x {mono, stereo, 5.1} x {low q, mid q, high q, managed}; signals = over-full-scale sines, square, level sweep, FLT_MAX/inf/NaN bursts
     cases, plns = [], []
@@ -448,6 +481,8 @@ def run(tier):
             pl, ns = (int(f[6]), int(f[7])) if f[1] == '0' else (int(f[8]), int(f[9]))
         elif f[0] == 'L':
             pl, ns = 100, 0
+        elif f[0] == 'B':
+            pl, ns = int(f[4]), int(f[5])
         else:
             pl = int(f[5]) if f[0] in 'GM' else (2 if f[5] == '1' else 0)
             ns = int(f[6]) if f[0] in 'GM' else 1100
@@ -457,6 +492,8 @@ def run(tier):
             key = 'asan:psy_init_noiseoff_oob'       # fixed in /repo by 09189a4; a regression is reported under the recorded key
         chk.violation(key, '%d tuples die with a sanitizer report at %s (call path %s); first: %s; examples: %s' % (len(lst), site, cp, desc, [x[0] for x in lst[1:4]]),
                       {'case': rc, 'stderr_tail': err[-1500:]})
+    for key, text, rp in life_viol:
+        chk.violation(key, text, rp)
     for case, ordn, desc in R.timeouts:
         chk.violation('watchdog:%s' % ((callpath(desc) if not desc.startswith('ctl') else 'ctl') if desc else 'unattributed'), 'CPU watchdog expired in %s (tuple %s)' % (case, desc), {'case': desc_to_case(desc, T) if desc else case})
     bgroups = {}
@@ -549,6 +586,11 @@ def run(tier):
             'encodes_with_lowpass/Nyquist_in_(0.98,1)_by_subfamily_and_template': {'%s/%s' % k: v for k, v in sorted(G['near'].items())},
             'geometry_samples': [[g, c] for g, c in sorted(G['geo'].items())[::max(1, len(G['geo']) // 6)]][:6],
         },
+        'scaling_family': SC.coverage(tier, T, len(sc_cases), sc_done),
+        'lifecycle_family': dict(LIFE, what='every legal call sequence of 1..depth calls over two encoder slots on one successfully set-up vorbis_info; calls per slot: A analysis_init, B block_init, '
+                                            'H headerout, E one chunk of audio (buffer/wrote + blockout/analysis/addblock/flushpacket until dry), F end of stream, C block_clear + dsp_clear; vorbis_info_clear '
+                                            'twice at the end; first call on slot 1 (the slots are interchangeable); each encoder lifetime compared packet by packet with a solo run of the same calls',
+                                 configurations=life_cfgs),
         'leak_observations(C13, not judged here)': leak_classes,
         'phase_wall_s': walls,
         'phase_executor_cpu_s': cpus,
@@ -568,6 +610,14 @@ def run(tier):
         'geometry family: OV_ECTL_LOWPASS_SET / OV_ECTL_COUPLING_SET are only issued after a successful setup_* and before setup_init (documented order); any finite lowpass value is a legal argument '
         '(the request clamps to 2..99 kHz); a request may return 0, OV_EINVAL or OV_EIMPL and the set-up that follows must still be memory-safe through the whole encode stage',
         'the three-step path does not promise a cleared vorbis_info on failure; only vorbis_info_clear (twice) being safe is required there',
+        'one-step calls: "cleared on failure" is read as the effect of vorbis_info_clear: the struct is all-zero AND the set-up storage allocated by vorbis_info_init / the call has been released '
+        '(live bytes of the wrapped allocator back to the level before vorbis_info_init); which stage refused a one-step call is found by running the two-step calls on a second vorbis_info and is '
+        'only used to count coverage, never judged (the header does not promise equal codes)',
+        'scaling family: channel counts and bitrates outside any sensible range are legal ARGUMENTS (long) that must be refused or accepted cleanly; channel counts that do not fit an int are not issued',
+        'lifecycle family: a successfully set-up vorbis_info is shared read-only configuration: vorbis_analysis_init takes it by pointer and several dsp states may be created from it and used alternately '
+        'from one thread, or one after another; vorbis_info_clear only after every dsp state was cleared; vorbis_block_clear before the vorbis_dsp_clear of its dsp state. vorbis_analysis_headerout is issued '
+        'at most once per encoder and before its first audio; audio may be submitted without having asked for the headers. vorbis_synthesis_init on an encoder-side vorbis_info is not documented and not issued. '
+        'Encoder output is required to be a function of the set-up and of the calls made on that encoder only',
     ]
     if not chk.violations:
         for fn in ('init_vbr', 'setup_vbr', 'init', 'setup_managed'):
@@ -599,12 +649,25 @@ def run(tier):
         chk.guard(all(G['modes'].get(m, 0) >= 100 for m in ('vbr/lowpass_set', 'managed/lowpass_set', 'vbr/coupling_off/lowpass_set', 'managed/coupling_off/lowpass_set')),
                   'geometry: the lowpass sweep encoded >= 100 cases in each of VBR / managed x {as set up, OV_ECTL_COUPLING_SET 0 requested} (%s)' % G['modes'])
         chk.guard(len(order) >= 20 and states_encoded >= 20, 'at least 20 distinct post-ctl set-up states were encoded from')
+        vbr_stage2 = sum(v for (p_, k), v in cls_all.items() if p_ == 'vbr' and re.match(r'^V:init_vbr:-\d+:probe_setup_vbr:0:probe_setup_init:-\d+:', k))
+        SC.guards(chk, tier, vbr_stage2, enc_by)
+        chk.guard(LIFE['executed'] == LIFE['case_lines'] and LIFE['executed'] >= 5000, 'lifecycle: every generated sequence was executed (%d of %d)' % (LIFE['executed'], LIFE['case_lines']))
+        chk.guard(LIFE['two_encoders_alive'] >= 4000 and LIFE['sequences_encoding_after_peer_cleared'] >= 300,
+                  'lifecycle: >= 4000 sequences had two encoders alive on one info, and in >= 300 one of them produced packets after the other had been cleared (%d / %d)'
+                  % (LIFE['two_encoders_alive'], LIFE['sequences_encoding_after_peer_cleared']))
+        chk.guard(LIFE['reuse_lifetimes_with_packets'] >= 100, 'lifecycle: >= 100 encoder lifetimes started after an earlier encoder on the same info had been cleared, and produced packets (%d)' % LIFE['reuse_lifetimes_with_packets'])
+        chk.guard(LIFE['packets_compared_with_solo'] >= 20000, 'lifecycle: >= 20000 packets were compared with the solo reference (%d)' % LIFE['packets_compared_with_solo'])
     return chk.finish()
 
 
 def replay(path):
     r = json.load(open(path))
     vlib.build('asan')
+    if 'life_case' in r['replay']:
+        out = vlib.run_cases(vlib.harness('asan', 'c15_life'), [r['replay']['life_case']], ['--timeout', '300'], jobs=1, tag='c15r')
+        o = out[0] or 'NOOUTPUT'
+        print(o[:3000])
+        return 0 if o.startswith('ok') and not c15_life.parse(o)['bad'] else 1
     exe = vlib.harness('asan', 'c15_setup')
     out = vlib.run_cases(exe, [r['replay']['case']], ['--timeout', '300'], jobs=1, tag='c15r')
     o = out[0] or 'NOOUTPUT'
